@@ -134,9 +134,26 @@ def _graph(rng):
         elif k < 0.8:
             ops.append(f'gone {rng.randrange(n + 1)} {_datum(rng, rng.choice([0, 1, 1, 2]))}')
         else:
-            ops.append(f'gpath {rng.randrange(n)} {rng.randrange(n)} {ds}')
-    es = ','.join(f'{a}-{b}' for a, b in sorted(edges)) or '-'
+            a, b = (0, n - 1) if rng.random() < 0.5 else (rng.randrange(n), rng.randrange(n))
+            ops.append(f'gpath {a} {b} {ds}')
+    # half of the graphs carry edge weights (hop-shortest and weight-shortest paths then differ)
+    weighted = rng.random() < 0.5
+    es = ','.join((f'{a}-{b}:{rng.choice([1, 1, 2, 5, 9, 40, 2 ** 33])}' if weighted and rng.random() < 0.8 else f'{a}-{b}')
+                  for a, b in sorted(edges)) or '-'
     return Case(f"graph {','.join(map(str, kinds))} {es}", ops)
+
+
+def corpus():
+    """weighted graphs in which the lightest path is not the one with the fewest hops, and only one of the two carries a
+    false / failing causaloid: graph, clone and twin must pick the same path (all kinds 0: datum ≡ 1 true, 0 false, 2 error)"""
+    t, f, e = 4, 3, 5
+    yield Case('graph 0,0,0,0 0-1:1,0-3:40,1-3:1', ['gq', f'gpath 0 3 {t},{f},{t},{t}', f'gpath 0 3 {t},{t},{t},{t}',
+                                                 f'gpath 0 3 {t},{e},{t},{t}', f'gall {t},{f},{t},{t}'], tags=('corpus', 'weighted'))
+    yield Case('graph 0,0,0,0,0 0-1:2,0-2:9,1-2:2,2-4:1,0-4:100,1-3:1,3-4:50',
+               ['gq', f'gpath 0 4 {t},{t},{f},{t},{t}', f'gpath 0 4 {t},{f},{t},{t},{t}', f'gpath 0 2 {t},{f},{t},{t},{t}',
+                f'gpath 1 4 {t},{t},{t},{f},{t}', f'gsub 1 {t},{t},{t},{f},{t}'], tags=('corpus', 'weighted'))
+    yield Case(f'graph 0,0,0 0-1:{2 ** 33},0-2:{2 ** 40},1-2:{2 ** 33}', ['gq', f'gpath 0 2 {t},{f},{t}', f'gpath 0 2 {t},{t},{t}'],
+               tags=('corpus', 'weighted', 'wide-weights'))
 
 
 def generate(rng, tier):
